@@ -28,6 +28,38 @@
 //!                              directory and is aborted before/after each of the pass's database
 //!                              writes — `VERIF_CRASH_AT` of the ckb-db hook; every crashed copy is
 //!                              reopened, queried, and must finish the pass like the crash-free run)
+//!   fzmax <bytes>     => ok   (the freezer's data-file size limit, hook `Freezer::verif_set_limits`,
+//!                              applied after every start of the node of this case, of the crash
+//!                              children and of the crash copies: a few hundred bytes to a few kB make
+//!                              the head file roll over every 1-3 blocks)
+//!   cutsnap           => ok   (oracle only: restart, record the cold answers, copy the node
+//!                              directory — RocksDB + ancient — as it is BEFORE the next pass)
+//!   cutcheck <seed> <level> => ok (oracle only, see `cut_check`: crashes INSIDE the freezer's file
+//!                              writes of the pass that followed `cutsnap`, at file granularity;
+//!                              level 0: 6 prioritised cut states per pass, 2: 16, 1: all of them)
+//!
+//! ## Write order of `Shared::freeze` (shared/src/shared.rs) and the crash states it allows
+//!
+//!   1. `Freezer::freeze`: for every height `number .. threshold`: `FreezerFiles::append` =
+//!      [rollover: `open_truncated(head_id+1)` creates/empties the next `blkNNNNNN`, the old head is
+//!      re-opened read-only] -> `Head::write` (data bytes at the end of the head file) ->
+//!      `write_index` (12 bytes at the end of INDEX); nothing is fsynced between two appends;
+//!   2. after the last append: `sync_all` (head file, then INDEX);
+//!   3. `wipe_out_frozen_data`: ONE RocksDB batch deleting the body rows of every block the call
+//!      froze (`write_sync`), then `compact_range`;
+//!   4. a second batch deleting the side-chain blocks at those heights (`write`), then `compact_range`.
+//!
+//! So a crash leaves either (a) the RocksDB state of BEFORE step 3 together with ANY state of the
+//! freezer files that step 1 can have reached — every prefix of the appends, the append in flight
+//! with its data and its index entry cut at any byte (a process crash leaves data-before-index, a
+//! power loss before step 2 may also leave index-before-data), incl. "data written / index not
+//! written on the first item of a NEW file" and "rolled over, new head still empty" — or (b) the
+//! complete, synced freezer files with the RocksDB state before step 3 / between 3 and 4 / after 4.
+//! `crashfreeze` enumerates (b) and the prefixes of (a) that fall on a RocksDB commit; `cutcheck`
+//! materialises (a): the freezer directory of the finished pass is cut back to each such state and
+//! combined with the RocksDB copy taken BEFORE the pass.  A cut freezer is never combined with a
+//! RocksDB state in which step 3 of the same pass has happened (the write order forbids it: step 2
+//! comes first; rolled-over data files of the same pass are assumed to reach the disk with it).
 #[path = "../../n02/src/c02.rs"]
 #[allow(dead_code)]
 mod c02;
@@ -217,6 +249,20 @@ struct C10<'a> {
     /// finding F21: the freezer is never truncated): `Some(description)`; from then on every oracle
     /// failure of the case is reported under the single class `deep-reorg-below-frozen-height`
     deep: Option<String>,
+    /// `fzmax`: data-file size limit of the freezer of this case (None = the builder default, 2 GB)
+    fzmax: Option<u64>,
+    /// block ids in the order they were delivered to the node
+    delivered: Vec<u64>,
+    /// `cutsnap`: the state before a pass (directory copy, cold answers, freezer.number, number of
+    /// blocks delivered so far)
+    snap: Option<CutSnap>,
+}
+
+struct CutSnap {
+    dir: std::path::PathBuf,
+    exact: BTreeMap<String, String>,
+    frozen_before: u64,
+    n_delivered: usize,
 }
 
 pub const DEEP_CLASS: &str = "deep-reorg-below-frozen-height";
@@ -237,13 +283,40 @@ impl C10<'_> {
     fn apply_block(&mut self, line: &str) {
         let old_tip = self.ex.tip_id();
         self.ex.apply(line);
+        self.note_delivered();
         self.note_reorg(old_tip);
+    }
+
+    fn note_delivered(&mut self) {
+        let mut ids: Vec<u64> = self.ex.ids.blkv.keys().cloned().filter(|i| *i != 0 && !self.delivered.contains(i)).collect();
+        ids.sort();
+        self.delivered.extend(ids);
+    }
+
+    /// apply `fzmax` to the freezer of the running node (after every start)
+    fn set_limits(&self) {
+        if let Some(n) = self.ex.node.as_ref() {
+            set_limits(n, self.fzmax);
+        }
+    }
+
+    fn reset_case(&mut self) {
+        self.baseline.clear();
+        self.frozen_seen = 0;
+        self.warm = false;
+        self.deep = None;
+        self.fzmax = None;
+        self.delivered.clear();
+        if let Some(s) = self.snap.take() {
+            let _ = std::fs::remove_dir_all(&s.dir);
+        }
     }
 
     /// generator side of `apply_block` (`Gen::build` emits its lines through the C02 executor)
     fn build(&mut self, g: &mut Gen, rng: &mut Rng, parent: u64, busy: bool) -> u64 {
         let old_tip = self.ex.tip_id();
         let id = g.build(&mut self.ex, rng, parent, busy);
+        self.note_delivered();
         self.note_reorg(old_tip);
         id
     }
@@ -443,6 +516,7 @@ impl C10<'_> {
             }
             "restart" => {
                 self.ex.restart();
+                self.set_limits();
                 self.warm = false;
                 let n = self.ex.node.as_ref().unwrap().store().freezer().map(|f| f.number()).unwrap_or(0);
                 if n < self.frozen_seen {
@@ -477,6 +551,21 @@ impl C10<'_> {
             }
             "crashfreeze" => {
                 self.crash_freeze();
+                self.ex.out.op(line, "ok");
+            }
+            "fzmax" => {
+                self.fzmax = Some(t[1].parse().expect("fzmax <bytes>"));
+                self.set_limits();
+                self.ex.out.op(line, "ok");
+            }
+            "cutsnap" => {
+                self.cut_snap();
+                self.ex.out.op(line, "ok");
+            }
+            "cutcheck" => {
+                let seed: u64 = t.get(1).map(|x| x.parse().expect("cutcheck <seed> <full>")).unwrap_or(0);
+                let level: u64 = t.get(2).map(|x| x.parse().expect("cutcheck <seed> <level>")).unwrap_or(0);
+                self.cut_check(seed, level);
                 self.ex.out.op(line, "ok");
             }
             "block" => self.apply_block(line),
@@ -520,6 +609,14 @@ impl C10<'_> {
     }
 }
 
+/// `Freezer::verif_set_limits` (verif-hooks): the data-file size limit is read by `append` only, so
+/// setting it right after `Freezer::open` is the same as building the freezer with it
+fn set_limits(node: &crate::node::Node, fzmax: Option<u64>) {
+    if let (Some(m), Some(f)) = (fzmax, node.store().freezer()) {
+        f.verif_set_limits(m, 256);
+    }
+}
+
 fn copy_dir(src: &std::path::Path, dst: &std::path::Path) {
     std::fs::create_dir_all(dst).unwrap();
     for e in std::fs::read_dir(src).unwrap() {
@@ -542,6 +639,7 @@ fn child_main(a: &[String]) -> ! {
     let cfg = crate::node::NodeCfg { epoch_len: a[2].parse().unwrap(), window: (a[3].parse().unwrap(), a[4].parse().unwrap()), genesis_cells: a[5].parse().unwrap(), with_pool: false, ..Default::default() };
     let consensus = crate::node::make_consensus(&cfg);
     let node = crate::node::Node::start_with_ancient(&dir.join("node"), consensus, &cfg, Some(dir.join("ancient")));
+    set_limits(&node, a.get(6).and_then(|x| x.parse().ok()));
     let tip = node.tip();
     let _ft = ckb_systemtime::faketime();
     _ft.set_faketime(tip.timestamp() + 1000);
@@ -560,6 +658,9 @@ impl C10<'_> {
         let mut cmd = std::process::Command::new(exe);
         cmd.args(["C10", "--out", dir.join("child-out").to_str().unwrap(), "child", dir.to_str().unwrap()]);
         cmd.args([c.epoch_len.to_string(), c.window.0.to_string(), c.window.1.to_string(), c.genesis_cells.to_string()]);
+        if let Some(m) = self.fzmax {
+            cmd.arg(m.to_string());
+        }
         cmd.env_remove("VERIF_CRASH_AT");
         if let Some(k) = crash_at {
             cmd.env("VERIF_CRASH_AT", k);
@@ -572,6 +673,7 @@ impl C10<'_> {
     fn crash_freeze(&mut self) {
         // baseline answers (cold) and the directory to copy
         self.ex.restart();
+        self.set_limits();
         self.warm = false;
         let (_, base_exact) = eval(&self.ex);
         let frozen_before = self.ex.node.as_ref().unwrap().store().freezer().map(|f| f.number()).unwrap_or(0);
@@ -593,6 +695,7 @@ impl C10<'_> {
             self.ex.out.count("crash_probe_failed");
             let _ = std::fs::remove_dir_all(&tmp);
             self.ex.start_node();
+            self.set_limits();
             return;
         }
         let (c0, c1, final_number) = (nums[0], nums[1], nums[2]);
@@ -616,6 +719,7 @@ impl C10<'_> {
                 // reopen the crashed copy
                 let consensus = crate::node::make_consensus(&self.ex.cfg);
                 let node = crate::node::Node::start_with_ancient(&d.join("node"), consensus, &self.ex.cfg, Some(d.join("ancient")));
+                set_limits(&node, self.fzmax);
                 let saved = self.ex.node.replace(node);
                 let (_, exact) = eval(&self.ex);
                 let n_after_crash = self.ex.node.as_ref().unwrap().store().freezer().map(|f| f.number()).unwrap_or(0);
@@ -671,24 +775,455 @@ impl C10<'_> {
         }
         let _ = std::fs::remove_dir_all(&tmp);
         self.ex.start_node();
+        self.set_limits();
         self.ex.out.count("crashfreeze");
     }
 }
+
+
+// ------------------------------------------------------------------------------------------------
+// crashes inside the freezer's file writes (file granularity)
+// ------------------------------------------------------------------------------------------------
+
+/// the decoded INDEX file: entry `i` = (file id, end offset) of item `i`; entry 0 is the default entry
+fn read_index(ancient: &std::path::Path) -> Vec<(u32, u64)> {
+    let raw = std::fs::read(ancient.join("INDEX")).unwrap_or_default();
+    raw.chunks_exact(12).map(|c| (u32::from_le_bytes(c[0..4].try_into().unwrap()), u64::from_le_bytes(c[4..12].try_into().unwrap()))).collect()
+}
+
+fn blk_name(fid: u32) -> String {
+    format!("blk{:06}", fid)
+}
+
+/// one crash state of the freezer directory while item `j` is being appended (items `< j` complete)
+#[derive(Clone, Debug)]
+struct Cut {
+    /// the item in flight (== freezer.number the re-opened freezer must report at least `a`.. at most this)
+    j: u64,
+    /// INDEX length in bytes
+    idx_len: u64,
+    /// the data file the item goes to, and its length (`None`: the file does not exist yet)
+    fid: u32,
+    data_len: Option<u64>,
+    /// the item is the first of a new data file (rollover)
+    new_file: bool,
+    /// also continue the case's history on the recovered node (step 4 of `cut_check`)
+    cont: bool,
+    label: String,
+}
+
+const QUICK_CUTS: usize = 6;
+
+/// all crash states of one pass that froze items `a .. b` (`idx` = INDEX after the pass)
+fn enumerate_cuts(idx: &[(u32, u64)], a: u64, b: u64, full: bool, cap: usize, rng: &mut Rng) -> Vec<Cut> {
+    let mut cuts = vec![];
+    let mut prio: Vec<(u8, Cut)> = vec![];
+    for j in a..b {
+        let (pf, po) = idx[(j - 1) as usize];
+        let (f, o) = idx[j as usize];
+        let new_file = f != pf;
+        let start = if new_file { 0 } else { po };
+        let len = o - start;
+        let base = 12 * j;
+        let mut cand: Vec<Cut> = vec![];
+        let mk = |idx_len: u64, data: Option<u64>, label: &str| Cut { j, idx_len, fid: f, data_len: data, new_file, cont: full, label: format!("item {} ({}{} bytes at {}:{}): {}", j, if new_file { "first of a NEW data file, " } else { "" }, len, blk_name(f), start, label) };
+        // process crash (write order data -> index)
+        let must: Vec<Cut> = if new_file {
+            vec![
+                mk(base, Some(len), "data written, index entry not written"),
+                mk(base, Some(0), "rolled over, new head file still empty"),
+            ]
+        } else {
+            vec![mk(base, Some(start + len), "data written, index entry not written")]
+        };
+        let mids: Vec<u64> = if full { vec![1, len / 2, len.saturating_sub(1)] } else { vec![rng.range(1, len.max(2) - 1)] };
+        for p in mids {
+            if p > 0 && p < len {
+                cand.push(mk(base, Some(start + p), &format!("{} of {} data bytes written", p, len)));
+            }
+        }
+        for t in if full { vec![1u64, 6, 11] } else { vec![rng.range(1, 11)] } {
+            cand.push(mk(base + t, Some(start + len), &format!("data written, {} of 12 index bytes written", t)));
+        }
+        // power loss before sync_all: the index entry reached the disk, the data did not (completely)
+        for p in if full { vec![0u64, len / 2] } else { vec![*rng.pick(&[0u64, len / 2])] } {
+            if p < len {
+                let d = if new_file && p == 0 && (full || rng.chance(1, 2)) { None } else { Some(start + p) };
+                cand.push(mk(base + 12, d, &format!("index entry on disk, {} of {} data bytes on disk{}", p, len, if d.is_none() { " (file missing)" } else { "" })));
+            }
+        }
+        if j == a {
+            cand.push(mk(base, if new_file { None } else { Some(start) }, "nothing written yet"));
+        }
+        if full {
+            cuts.extend(must);
+            cuts.extend(cand);
+        } else {
+            // quick: a sample (below); the states at a rollover whose data file receives a further
+            // item afterwards come first — a stale byte left in such a file shifts every later item
+            let shared_file = new_file && j + 1 < b && idx[(j + 1) as usize].0 == f;
+            let k = rng.below(cand.len() as u64) as usize;
+            for (i, c) in must.into_iter().enumerate() {
+                prio.push((if shared_file && i == 0 { 0 } else if new_file { 1 } else { 2 }, c));
+            }
+            prio.push((2, cand[k].clone()));
+        }
+    }
+    if !full {
+        // at most `cap` states per pass: by priority class, random inside a class
+        let mut order: Vec<usize> = (0..prio.len()).collect();
+        rng.shuffle(&mut order);
+        let mut zeros = 0;
+        for i in order.iter() {
+            if prio[*i].0 == 0 {
+                zeros += 1;
+                if zeros > 3 {
+                    prio[*i].0 = 2;
+                }
+            }
+        }
+        order.sort_by_key(|i| prio[*i].0);
+        for (n, i) in order.into_iter().take(cap).enumerate() {
+            let mut c = prio[i].1.clone();
+            // the history is continued on the first (highest priority) one and on every 5th after it
+            c.cont = n % 5 == 0;
+            cuts.push(c);
+        }
+        cuts.sort_by_key(|c| (c.j, c.idx_len, c.data_len));
+    }
+    // the complete freezer of the pass with the rows of before the wipe
+    if b > a {
+        let (f, o) = idx[(b - 1) as usize];
+        cuts.push(Cut { j: b, idx_len: 12 * b, fid: f, data_len: Some(o), new_file: false, cont: full, label: "all appends complete, nothing wiped".into() });
+    }
+    cuts
+}
+
+/// build the freezer directory `dst` = the finished pass's directory `f1` cut back to `cut`
+fn materialise_cut(f1: &std::path::Path, dst: &std::path::Path, cut: &Cut) {
+    std::fs::create_dir_all(dst).unwrap();
+    std::fs::File::create(dst.join("FLOCK")).unwrap();
+    let mut index = std::fs::read(f1.join("INDEX")).unwrap();
+    assert!(cut.idx_len as usize <= index.len());
+    index.truncate(cut.idx_len as usize);
+    std::fs::write(dst.join("INDEX"), &index).unwrap();
+    for fid in 0..=cut.fid {
+        let src = f1.join(blk_name(fid));
+        if fid < cut.fid {
+            if src.exists() {
+                std::fs::copy(&src, dst.join(blk_name(fid))).unwrap();
+            }
+        } else if let Some(n) = cut.data_len {
+            let mut data = std::fs::read(&src).unwrap_or_default();
+            assert!(n as usize <= data.len(), "cut beyond the data file");
+            data.truncate(n as usize);
+            std::fs::write(dst.join(blk_name(fid)), &data).unwrap();
+        }
+    }
+}
+
+/// the chain view that no freezer pass may touch (live cells + data, tx-info rows, number index, tip,
+/// current epoch), as one fingerprint
+fn view_fingerprint(ex: &Exec) -> String {
+    let node = ex.node.as_ref().unwrap();
+    let d = c02::dump(node.store(), &ex.ids, &node.consensus.genesis_block().difficulty());
+    let mut parts = vec![];
+    for s in ["cell", "data", "dhash", "txinfo", "index", "rindex", "epnum", "meta"] {
+        let e: Vec<String> = d.sec.get(s).map(|m| m.values().cloned().collect()).unwrap_or_default();
+        parts.push(format!("{}={}", s, e.join(",")));
+    }
+    h8(parts.join(" ").as_bytes())
+}
+
+impl C10<'_> {
+    /// `cutsnap`: the state before the next pass
+    fn cut_snap(&mut self) {
+        self.ex.restart();
+        self.set_limits();
+        self.warm = false;
+        let (_, mut exact) = eval(&self.ex);
+        exact.insert("chain-view:all".into(), view_fingerprint(&self.ex));
+        let frozen_before = self.ex.node.as_ref().unwrap().store().freezer().map(|f| f.number()).unwrap_or(0);
+        self.ex.stop_node();
+        let src = self.ex.case_dir();
+        let dir = src.join("cutsnap");
+        let _ = std::fs::remove_dir_all(&dir);
+        copy_dir(&src.join("node"), &dir.join("node"));
+        copy_dir(&src.join("ancient"), &dir.join("ancient"));
+        self.ex.start_node();
+        self.set_limits();
+        self.snap = Some(CutSnap { dir, exact, frozen_before, n_delivered: self.delivered.len() });
+        self.ex.out.count("cutsnap");
+    }
+
+    /// open a node on `d/node` (+ `d/ancient` unless `plain`) in place of the case's node
+    fn open_copy(&mut self, d: &std::path::Path, plain: bool) -> bool {
+        let consensus = crate::node::make_consensus(&self.ex.cfg);
+        let cfg = self.ex.cfg.clone();
+        let fzmax = self.fzmax;
+        let r = catch_unwind(AssertUnwindSafe(|| {
+            let node = if plain { crate::node::Node::start(&d.join("node"), consensus, &cfg) } else { crate::node::Node::start_with_ancient(&d.join("node"), consensus, &cfg, Some(d.join("ancient"))) };
+            set_limits(&node, fzmax);
+            node
+        }));
+        match r {
+            Ok(node) => {
+                self.ex.node = Some(node);
+                true
+            }
+            Err(_) => false,
+        }
+    }
+
+    fn close_copy(&mut self) {
+        if let Some(node) = self.ex.node.take() {
+            node.stop();
+        }
+    }
+
+    /// all accessors of the node in `self.ex.node`, or the panic
+    fn eval_caught(&self) -> Option<BTreeMap<String, String>> {
+        catch_unwind(AssertUnwindSafe(|| {
+            let (_, mut e) = eval(&self.ex);
+            e.insert("chain-view:all".into(), view_fingerprint(&self.ex));
+            e
+        }))
+        .ok()
+    }
+
+    /// compare every answer about a subject that is on the main chain of the node in `self.ex.node`
+    /// with `want`; returns the number of compared answers
+    fn compare_main(&mut self, got: &BTreeMap<String, String>, want: &BTreeMap<String, String>, class_suffix: &str, ctx: &str) -> usize {
+        let subjects: std::collections::HashSet<String> = self.main_keys().into_iter().collect();
+        let mut n = 0;
+        if let Some(w) = got.get("!wrong:all") {
+            fail(&mut *self.ex.out, &self.deep, "answer-has-another-blocks-content", &format!("({}) {}", ctx, w));
+        }
+        for (key, v) in got {
+            let (acc, subj) = key.split_once(':').unwrap();
+            if acc == "!wrong" || acc == "live-cells" {
+                continue;
+            }
+            if !(subjects.contains(subj) || acc == "chain-view") {
+                continue;
+            }
+            if let Some(old) = want.get(key) {
+                n += 1;
+                if old != v {
+                    let part = ["get_block_body", "get_block_txs_hashes", "get_cellbase", "get_block_uncles", "get_block_proposal_txs_ids", "get_block_extension", "get_packed_block", "data_loader.get_block_extension"].contains(&acc);
+                    let class = if part { format!("frozen-block-part-accessor-changed:{}", acc.trim_start_matches("data_loader.")) } else { format!("main-chain-answer-changed{}:{}", class_suffix, acc) };
+                    fail(&mut *self.ex.out, &self.deep, &class, &format!("({}) {} expected `{}` got `{}`", ctx, key, old, v));
+                }
+            }
+        }
+        n
+    }
+
+    fn freeze_here(&self) -> (Option<bool>, u64) {
+        let node = self.ex.node.as_ref().unwrap();
+        let ft = ckb_systemtime::faketime();
+        ft.set_faketime(node.tip().timestamp() + 1000);
+        let shared = node.shared.clone();
+        let r = catch_unwind(AssertUnwindSafe(|| shared.verif_freeze_once()));
+        let n = node.store().freezer().map(|f| f.number()).unwrap_or(0);
+        (r.ok().map(|x| x.is_ok()), n)
+    }
+
+    /// `cutcheck`: crashes INSIDE the freezer's file writes of the pass that followed `cutsnap`.
+    ///
+    /// The pass is run once more on a copy of the snapshot (crash-free probe) to obtain the finished
+    /// freezer directory; every crash state of the directory (see `enumerate_cuts` and the module
+    /// comment on the write order) is materialised, combined with the RocksDB copy of BEFORE the
+    /// pass and re-opened as a node.  Judged on each:
+    ///   1. the node opens; freezer.number is between the number before the pass and the item in flight;
+    ///   2. EVERY accessor of `eval` answers every main-chain block / transaction exactly as before
+    ///      the pass (and no answer carries another block's content);
+    ///   3. the next pass succeeds and ends where the crash-free pass ended; all accessors again;
+    ///   4. the blocks the case delivered after the snapshot are delivered, with further passes in
+    ///      between and at the end; then every accessor answers every main-chain block /
+    ///      transaction, and the chain view (live cells, tx-info, index), exactly like a node that
+    ///      NEVER had a freezer and was fed the same blocks.
+    fn cut_check(&mut self, seed: u64, level: u64) {
+        let full = level == 1;
+        let cap = if level == 2 { 16 } else { QUICK_CUTS };
+        let Some(snap) = self.snap.take() else {
+            self.ex.out.count("cutcheck_without_snapshot");
+            return;
+        };
+        self.ex.stop_node();
+        let tmp = self.ex.case_dir().join("cut");
+        let _ = std::fs::remove_dir_all(&tmp);
+        let mut rng = Rng::new(seed ^ 0xc07);
+        // --- the never-frozen reference node, fed every block of the case in delivery order
+        let refdir = tmp.join("ref");
+        std::fs::create_dir_all(&refdir).unwrap();
+        assert!(self.open_copy(&refdir, true));
+        for id in self.delivered.clone() {
+            let _ = self.ex.node.as_ref().unwrap().process(&self.ex.ids.blkv[&id]);
+        }
+        let ref_exact = self.eval_caught().expect("reference node answers");
+        self.close_copy();
+        let _ = std::fs::remove_dir_all(&refdir);
+        // --- the case's own node (all its passes, no crash) against the reference
+        self.ex.start_node();
+        self.set_limits();
+        match self.eval_caught() {
+            Some(e) => {
+                self.compare_main(&e, &ref_exact, "-vs-never-frozen-node", "the case's node at its end vs a node without freezer");
+            }
+            None => fail(&mut *self.ex.out, &self.deep, "accessor-panics", "the case's node at its end"),
+        }
+        self.ex.stop_node();
+        // --- crash-free probe of the pass on a copy of the snapshot
+        let probe = tmp.join("probe");
+        copy_dir(&snap.dir.join("node"), &probe.join("node"));
+        copy_dir(&snap.dir.join("ancient"), &probe.join("ancient"));
+        assert!(self.open_copy(&probe, false));
+        let a = self.ex.node.as_ref().unwrap().store().freezer().unwrap().number();
+        assert_eq!(a, snap.frozen_before);
+        let (r, b) = self.freeze_here();
+        self.close_copy();
+        let idx = read_index(&probe.join("ancient"));
+        if r != Some(true) || idx.len() as u64 != b {
+            self.ex.out.count("cutcheck_probe_failed");
+            let _ = std::fs::remove_dir_all(&tmp);
+            let _ = std::fs::remove_dir_all(&snap.dir);
+            self.ex.start_node();
+            self.set_limits();
+            return;
+        }
+        if b == a {
+            self.ex.out.count("cutcheck_pass_froze_nothing");
+        }
+        let files_used: std::collections::BTreeSet<u32> = (a..b).map(|j| idx[j as usize].0).collect();
+        if files_used.len() > 1 || (b > a && a > 1 && idx[(a - 1) as usize].0 != idx[a as usize].0) {
+            self.ex.out.count("cutcheck_pass_with_rollover");
+        }
+        let cuts = enumerate_cuts(&idx, a, b, full, cap, &mut rng);
+        let later: Vec<u64> = self.delivered[snap.n_delivered..].to_vec();
+        for (ci, cut) in cuts.iter().enumerate() {
+            let d = tmp.join(format!("c{}", ci));
+            copy_dir(&snap.dir.join("node"), &d.join("node"));
+            materialise_cut(&probe.join("ancient"), &d.join("ancient"), cut);
+            let ctx = format!("crash inside the freezer pass {}..{} [fzmax {:?}]: {}; INDEX {} bytes, {} {:?} bytes", a, b, self.fzmax, cut.label, cut.idx_len, blk_name(cut.fid), cut.data_len);
+            self.ex.out.count("file_cut_points");
+            if cut.new_file {
+                self.ex.out.count("file_cut_points_on_first_item_of_new_file");
+            }
+            // 1. re-open
+            if !self.open_copy(&d, false) {
+                fail(&mut *self.ex.out, &self.deep, "node-does-not-reopen-after-crash", &ctx);
+                let _ = std::fs::remove_dir_all(&d);
+                continue;
+            }
+            let n0 = self.ex.node.as_ref().unwrap().store().freezer().map(|f| f.number()).unwrap_or(0);
+            if n0 < a {
+                fail(&mut *self.ex.out, &self.deep, "freezer-lost-blocks-after-crash", &format!("{} -> {} ({})", a, n0, ctx));
+            }
+            if n0 > cut.j.max(a) {
+                fail(&mut *self.ex.out, &self.deep, "freezer-number-beyond-written-items-after-crash", &format!("{} > {} ({})", n0, cut.j, ctx));
+            }
+            if n0 < cut.j {
+                // (a fully written item was dropped by the repair: not a loss, the rows are still there)
+                self.ex.out.count("file_cut_reopen_dropped_complete_items");
+            }
+            // 2. every accessor, cold
+            let mut ok = true;
+            match self.eval_caught() {
+                Some(e) => {
+                    self.compare_main(&e, &snap.exact, "-after-crash", &format!("re-opened; {}", ctx));
+                }
+                None => {
+                    fail(&mut *self.ex.out, &self.deep, "accessor-panics-after-crash", &format!("re-opened; {}", ctx));
+                    ok = false;
+                }
+            }
+            // 3. the next pass continues and ends where the crash-free pass ended
+            let (r2, n2) = self.freeze_here();
+            if r2 != Some(true) || n2 != b {
+                fail(&mut *self.ex.out, &self.deep, "crash-recovery-diverges", &format!("next pass {:?} ends at freezer.number {} (crash-free: {}); {}", r2, n2, b, ctx));
+            }
+            match self.eval_caught() {
+                Some(e) => {
+                    self.compare_main(&e, &snap.exact, "-after-crash", &format!("after the recovery pass; {}", ctx));
+                }
+                None => {
+                    fail(&mut *self.ex.out, &self.deep, "accessor-panics-after-crash", &format!("after the recovery pass; {}", ctx));
+                    ok = false;
+                }
+            }
+            // 4. the rest of the case's history on the recovered node, passes in between, against the
+            //    never-frozen node
+            if ok && cut.cont {
+                let pass_at = if later.is_empty() { 0 } else { rng.below(later.len() as u64) as usize };
+                let mut fed = true;
+                for (k, id) in later.iter().enumerate() {
+                    let blk = self.ex.ids.blkv[id].clone();
+                    let node = self.ex.node.as_ref().unwrap();
+                    if catch_unwind(AssertUnwindSafe(|| node.process(&blk))).is_err() {
+                        fail(&mut *self.ex.out, &self.deep, "node-panics-after-crash", &format!("delivering block b{}; {}", id, ctx));
+                        fed = false;
+                        break;
+                    }
+                    if k == pass_at {
+                        let _ = self.freeze_here();
+                    }
+                }
+                if fed {
+                    let (r3, _) = self.freeze_here();
+                    if r3 != Some(true) {
+                        fail(&mut *self.ex.out, &self.deep, "crash-recovery-diverges", &format!("a later pass (after {} more blocks) fails: {:?}; {}", later.len(), r3, ctx));
+                    }
+                    // cold again: restart the recovered node
+                    self.close_copy();
+                    if !self.open_copy(&d, false) {
+                        fail(&mut *self.ex.out, &self.deep, "node-does-not-reopen-after-crash", &format!("second re-open; {}", ctx));
+                        let _ = std::fs::remove_dir_all(&d);
+                        continue;
+                    }
+                    match self.eval_caught() {
+                        Some(e) => {
+                            let n = self.compare_main(&e, &ref_exact, "-after-crash", &format!("after {} more blocks and passes, vs a node without freezer; {}", later.len(), ctx));
+                            if n > 0 {
+                                self.ex.out.count("file_cut_histories_continued_and_compared");
+                            }
+                        }
+                        None => fail(&mut *self.ex.out, &self.deep, "accessor-panics-after-crash", &format!("after {} more blocks and passes; {}", later.len(), ctx)),
+                    }
+                }
+            }
+            self.close_copy();
+            let _ = std::fs::remove_dir_all(&d);
+        }
+        let _ = std::fs::remove_dir_all(&tmp);
+        let _ = std::fs::remove_dir_all(&snap.dir);
+        self.ex.start_node();
+        self.set_limits();
+        self.warm = false;
+        self.ex.out.count("cutcheck");
+    }
+}
+
+/// generator knobs: `cutcheck` in CUT_NUM of 4 cases; 16 cut states per pass (thorough) or 6 (quick)
+static CUT_NUM: std::sync::atomic::AtomicU64 = std::sync::atomic::AtomicU64::new(2);
+static CUT_FULL: std::sync::atomic::AtomicBool = std::sync::atomic::AtomicBool::new(false);
 
 fn gen_case(c: &mut C10, rng: &mut Rng) {
     let l = rng.range(3, 5);
     let w = *rng.pick(&[(1u64, 3u64), (2, 4)]);
     let gcells = rng.range(5, 8);
-    c.baseline.clear();
-    c.frozen_seen = 0;
-    c.warm = false;
-    c.deep = None;
+    c.reset_case();
     c.ex.begin_case(&format!("freeze l={} w={}.{} g={}", l, w.0, w.1, gcells));
     let cfg = crate::node::NodeCfg { epoch_len: l, window: w, genesis_cells: gcells, with_pool: false, ..Default::default() };
     c.apply(&format!("cfg {} {} {} {}", l, w.0, w.1, gcells));
     for op in Exec::genesis_ops(&cfg) {
         c.apply(&op);
     }
+    // data-file size limit of the freezer: the generated blocks compress to roughly 0.4 .. 2.5 kB, so
+    // these limits give one item per file (every append rolls over), 1-3 items per file, several
+    // items per file, and the builder default (one file)
+    let fzmax = *rng.pick(&[1u64, 1500, 2500, 2500, 4000, 4000, 7000, 2_000_000_000]);
+    c.apply(&format!("fzmax {}", fzmax));
     let mut g = Gen { next_tx: 100, next_blk: 1, l, w };
     let rounds = rng.range(2, 3);
     let mut target = l * rng.range(3, 4) + rng.below(l);
@@ -696,6 +1231,9 @@ fn gen_case(c: &mut C10, rng: &mut Rng) {
     let f9 = rng.chance(1, 4) || true;
     // one crash enumeration in about every third case (each costs ~5 child processes)
     let crash_round = if rng.chance(1, 3) { Some(rng.below(rounds)) } else { None };
+    // crashes inside the freezer's file writes of one pass (`cutsnap` before it, `cutcheck` at the end
+    // of the case, so that the recovered copies also get the rest of the history)
+    let cut_round = if rng.chance(CUT_NUM.load(std::sync::atomic::Ordering::Relaxed), 4) { Some(rng.below(rounds.min(2))) } else { None };
     // a restart between every two steps once something is frozen (about every fourth case)
     let restart_heavy = rng.chance(1, 4);
     for round in 0..rounds {
@@ -728,6 +1266,9 @@ fn gen_case(c: &mut C10, rng: &mut Rng) {
         c.apply("query");
         if crash_round == Some(round) {
             c.apply("crashfreeze");
+        }
+        if cut_round == Some(round) {
+            c.apply("cutsnap");
         }
         // the pass: with the accessors evaluated just before it (warm caches), or not (the first reads
         // after the wipe find cold caches and must fall back to the freezer)
@@ -801,6 +1342,9 @@ fn gen_case(c: &mut C10, rng: &mut Rng) {
         }
         target += l * rng.range(1, 2) + rng.below(l);
         let _ = round;
+    }
+    if cut_round.is_some() {
+        c.apply(&format!("cutcheck {} {}", rng.below(1 << 30), if CUT_FULL.load(std::sync::atomic::Ordering::Relaxed) { 2 } else { 0 }));
     }
     if c.frozen_seen > 1 {
         c.ex.out.nontrivial(format!("l{}w{}f{}", l, w.0, c.frozen_seen));
@@ -885,15 +1429,12 @@ pub fn run(opts: &Opts) {
     {
         let mut ex = Exec::new(&mut out, base.clone());
         ex.ancient = true;
-        let mut c = C10 { ex, baseline: BTreeMap::new(), frozen_seen: 0, warm: false, deep: None };
+        let mut c = C10 { ex, baseline: BTreeMap::new(), frozen_seen: 0, warm: false, deep: None, fzmax: None, delivered: vec![], snap: None };
         if let Some(rp) = &opts.replay {
             for l in read_replay_ops(rp) {
                 if l.starts_with("case ") {
                     let label = l.splitn(3, ' ').nth(2).unwrap_or("replay").to_string();
-                    c.baseline.clear();
-                    c.frozen_seen = 0;
-                    c.warm = false;
-                    c.deep = None;
+                    c.reset_case();
                     c.ex.begin_case(&label);
                 } else {
                     if c.ex.case_no == 0 {
@@ -915,6 +1456,11 @@ pub fn run(opts: &Opts) {
                 .unwrap_or((0, 1));
             let mut rng = Rng::new(opts.seed.wrapping_mul(64).wrapping_add(shard));
             let cases = if opts.thorough() { 160 / nshards } else if shard == 0 { 14 } else { 0 } * opts.scale;
+            CUT_FULL.store(opts.thorough(), std::sync::atomic::Ordering::Relaxed);
+            if opts.thorough() {
+                // a quarter of the thorough cases (each `cutcheck` re-opens ~17 nodes)
+                CUT_NUM.store(1, std::sync::atomic::Ordering::Relaxed);
+            }
             for _ in 0..cases {
                 gen_case(&mut c, &mut rng);
             }
